@@ -112,6 +112,59 @@ def deltaSorted (s starts : List Nat) (idx : List Nat) : R (List Nat) :=
       | none => .panic       -- the value list is shorter than the slot table: index out of bounds
       | some a => if start > h then .panic else .ok (l ++ [s.getD h 0 - a])) (.ok [])
 
+/-! ## LazyDeltaVec<DeltaChange> (lookback = the window start itself, `count = h - start`; source values are small integers,
+so the `f64` arithmetic of the operator is exact; a negative difference shows as 0 — the harness casts with saturation) -/
+
+/-- the defining formula: `source[h] - source[start]` -/
+def chgFormula (s starts : List Nat) (h : Nat) : Option Nat :=
+  if h ≥ s.length ∨ h ≥ starts.length then none else
+  let start := starts.getD h 0
+  match s[start]? with
+  | none => none
+  | some ago => some (s.getD h 0 - ago)
+
+/-- `collect_one_at` -/
+def chgOne (s starts : List Nat) (h : Nat) : R (Option Nat) :=
+  if h ≥ s.length then .ok none else
+  if h ≥ starts.length then .ok none else
+  let start := starts.getD h 0
+  match s[start]? with
+  | none => .ok none
+  | some ago => if start > h then .panic else .ok (some (s.getD h 0 - ago))     -- `h - start` underflows
+
+/-- `bulk_try_fold` behind every range path -/
+def chgRange (s starts : List Nat) (from_ to : Nat) : R (List Nat) :=
+  let to := min (min to s.length) starts.length
+  if from_ ≥ to then .ok [] else
+  let readFrom := min (starts.getD from_ 0) from_
+  let data := collectRange s readFrom to
+  (List.range (to - from_)).foldl (fun (acc : R (List Nat)) k =>
+    match acc with
+    | .panic => .panic
+    | .ok l =>
+      let i := from_ + k
+      let start := starts.getD i 0
+      match data[i - readFrom]? with
+      | none => .panic
+      | some cur =>
+        let ago : Option Nat := if start < readFrom then none else data[start - readFrom]?
+        match ago with
+        | none => .panic
+        | some a => if start > i then .panic else .ok (l ++ [cur - a])) (.ok [])
+
+/-- `read_sorted_into_at` -/
+def chgSorted (s starts : List Nat) (idx : List Nat) : R (List Nat) :=
+  let len := min s.length starts.length
+  idx.foldl (fun (acc : R (List Nat)) h =>
+    match acc with
+    | .panic => .panic
+    | .ok l =>
+      if h ≥ len then .ok l else
+      let start := starts.getD h 0
+      match s[start]? with
+      | none => .panic       -- the value list is shorter than the slot table: index out of bounds
+      | some a => if start > h then .panic else .ok (l ++ [s.getD h 0 - a])) (.ok [])
+
 /-! ## LazyAggVec<Sparse> -/
 
 /-- the defining formula: the last element of group `i`, nothing for an empty group -/
